@@ -97,9 +97,30 @@ let tag_handler opf init show args =
   let r = "A " ^ show a ^ " B " ^ show b in
   { model = r ^ " | heap a=0 f=0 bad=0 oob=0 live=0"; spec = r; dom = true }
 
+(* maybe<Tr> / either<Tr,long>: the slot state machines with exact payload event counts *)
+let cnt_str c =
+  Printf.sprintf "obj ctor=%d dtor=%d asg=%d asgraw=%d live=%d baddestroy=0" (int_of_nat c.n_ctor) (int_of_nat c.n_dtor)
+    (int_of_nat c.n_asg) (int_of_nat c.n_asgraw) (int_of_nat (n_live c))
+let clean c = int_of_nat c.n_asgraw = 0 && int_of_nat (n_live c) = 0
+let mayt_op t = match t.[0] with
+  | 'd' -> MDefault | 'n' -> MReset | 'v' -> MSet (z_of_int (num t 1)) | 'c' -> MCtorVal (z_of_int (num t 1))
+  | 'k' -> MCopyCtor | 'a' -> MAssignAB | 'b' -> MAssignBA | 's' -> MSelfAssign | 'f' -> MFlip
+  | _ -> failwith ("op " ^ t)
+let show_mo = function Some v -> "some " ^ string_of_z v | None -> "none"
+let mayt_handler args =
+  let ops = List.map (fun a -> mayt_op (getS a)) args in
+  let ((a, b), c) = mrun ops in let (sa, sb) = mspec_run ops in
+  { model = "A " ^ show_mo (m_obs a) ^ " B " ^ show_mo (m_obs b) ^ " | heap a=0 f=0 bad=0 " ^ cnt_str c;
+    spec = "A " ^ show_mo sa ^ " B " ^ show_mo sb; dom = clean c }
+let eitt_handler args =
+  let ops = List.map (fun a -> eit_op (getS a)) args in
+  let ((a, b), c) = enrun ops in let (sa, sb) = erun ops in
+  { model = "A " ^ show_eit (e_obs a) ^ " B " ^ show_eit (e_obs b) ^ " | heap a=0 f=0 bad=0 " ^ cnt_str c;
+    spec = "A " ^ show_eit sa ^ " B " ^ show_eit sb; dom = clean c }
+
 let () =
   register "vec" vec_handler; register "svec" svec_handler; register "small" small_handler; register "smalls" smalls_handler; register "arr" arr_handler;
   register "may" (tag_handler may_op (Coq_inr z0, Coq_inr z0) show_may);
-  register "mayt" (tag_handler may_op (Coq_inr z0, Coq_inr z0) show_may);
+  register "mayt" mayt_handler;
   register "eit" (tag_handler eit_op (Coq_inl z0, Coq_inl z0) show_eit);
-  register "eitt" (tag_handler eit_op (Coq_inl z0, Coq_inl z0) show_eit)
+  register "eitt" eitt_handler
